@@ -42,6 +42,8 @@ def load_modules():
     import aioquic.quic.logger as logger
     import aioquic.quic.packet as packet
     import aioquic.tls as tls
+    import logging
+    logging.getLogger("quic").setLevel(logging.CRITICAL)
     return {"configuration": configuration, "connection": connection, "events": events,
             "logger": logger, "packet": packet, "tls": tls}
 
@@ -60,7 +62,7 @@ class Sim:
         self.cfg = dict(DEFAULT_CFG)
         self.cfg.update(cfg or {})
         self.seed = seed
-        self.now = 0                     # µs
+        self.tf = 0.0                    # virtual time, float seconds (exactly what the API is given)
         self.log = []
         self.seq = 0
         self.net = []                    # datagrams in flight: dict(id, src, dst, data, from_addr, pkts)
@@ -164,7 +166,11 @@ class Sim:
         return self.cids[b]
 
     def t(self):
-        return self.now / US
+        return self.tf
+
+    @property
+    def now(self):                       # integer µs for the log (TLC side)
+        return int(round(self.tf * US))
 
     def addr_id(self, a):
         if a == SADDR:
@@ -415,15 +421,18 @@ class Sim:
         due = self.timer_value(ep)
         if due is None:
             return False
-        self.now = max(self.now, due + late)
         conn = self.eps[ep]
+        # the caller contract: handle_timer(now) with now >= the float get_timer() returned
+        # (+1 µs: a real event loop calls back slightly after the deadline; firing at the exact
+        # float makes `sent_time <= now - loss_delay` a matter of rounding)
+        self.tf = max(self.tf, conn.get_timer() + (late + 1) / US)
         _, r = self._guard(ep, "handle_timer", conn.handle_timer, now=self.t())
         self.ev("timer", ep=ep, due=due, raised=r or "")
         self._after(ep)
         return True
 
     def tick(self, dt):
-        self.now += dt
+        self.tf += dt / US
 
     # ------------------------------------------------------------ fair phase
     def quiescent(self):
@@ -445,10 +454,15 @@ class Sim:
         (nothing in flight and every live endpoint's next deadline is its idle /
         closing deadline).  Returns True when quiescent."""
         self.ev("net", fate="fair", dg=0)
+        # An endpoint whose timer fired without any effect (deadline unchanged, nothing sent) would be
+        # called back again at once by a real event loop; meanwhile the rest of the world moves on.
+        # It is skipped until something is delivered to it or its deadline changes.
+        stalled = {}
         for _ in range(max_steps):
             if until and until():
                 return True
             if self.net:
+                stalled.pop(self.net[0]["dst"], None)
                 self.deliver(0)
                 continue
             if self.quiescent():
@@ -456,11 +470,17 @@ class Sim:
             best = None
             for ep in self.eps:
                 v = self.timer_value(ep)
-                if v is not None and not self.terminated[ep] and (best is None or v < best[0]):
+                if v is None or self.terminated[ep] or stalled.get(ep) == v:
+                    continue
+                if best is None or v < best[0]:
                     best = (v, ep)
             if best is None:
-                return True
+                return not stalled
+            n0 = self.dgid
             self.fire(best[1])
+            if self.dgid == n0 and self.timer_value(best[1]) == best[0]:
+                stalled[best[1]] = best[0]
+                self.ev("note", what="timer-without-effect", ep=best[1], due=best[0])
         return False
 
     def handshake(self):
